@@ -11,12 +11,12 @@ Local Open Scope Z_scope.
 Definition lg (i b : Z) (tr : list (Z * Z)) : list (Z * Z) := (i, b) :: tr.
 
 (* ---------------------------------------------------- decode_mcu_AC_first, one block, EOBRUN = 0 *)
-Inductive pres := PDone (eobrun : Z) (tr : list (Z * Z)) (rest : list bool) | PSusp (tr : list (Z * Z)) | PFuel (tr : list (Z * Z)).
+Inductive pres := PDone (eobrun : Z) (tr : list (Z * Z)) (rest : list bool) (st : list (Z * Z)) | PSusp (tr : list (Z * Z)) | PFuel (tr : list (Z * Z)).
 
 (* "for (k = Ss; k <= Se; k++) { s = HUFF_DECODE; r = s >> 4; s &= 15;
       if (s) { k += r; r = GET_BITS(s); block[natural_order[k]] = HUFF_EXTEND(r, s) << Al; }
       else if (r == 15) k += 15; else { EOBRUN = 1 << r; if (r) EOBRUN += GET_BITS(r); EOBRUN--; break; } }" *)
-Fixpoint ac_first_loop (fuel : nat) (t : dtbl) (Se k : Z) (bs : list bool) (tr : list (Z * Z)) : pres :=
+Fixpoint ac_first_loop (fuel : nat) (t : dtbl) (Se Al k : Z) (bs : list bool) (tr : list (Z * Z)) (st : list (Z * Z)) : pres :=
   if k <=? Se then
     match fuel with
     | O => PFuel tr
@@ -27,11 +27,11 @@ Fixpoint ac_first_loop (fuel : nat) (t : dtbl) (Se k : Z) (bs : list bool) (tr :
             let r := sym / 16 in
             let s := sym mod 16 in
             if s =? 0 then
-              if r =? 15 then ac_first_loop f t Se (k + 15 + 1) bs1 tr
+              if r =? 15 then ac_first_loop f t Se Al (k + 15 + 1) bs1 tr st
               else
                 match (if r =? 0 then Some (0, bs1) else take_code (Z.to_nat r) bs1 0) with
                 | None => PSusp tr
-                | Some (v, bs2) => PDone (2 ^ r + v - 1) tr bs2
+                | Some (v, bs2) => PDone (2 ^ r + v - 1) tr bs2 st
                 end
             else
               let k' := k + r in
@@ -40,11 +40,11 @@ Fixpoint ac_first_loop (fuel : nat) (t : dtbl) (Se k : Z) (bs : list bool) (tr :
               | Some (v, bs2) =>
                   let tr1 := lg k' bound_natural_order tr in
                   let tr2 := lg (nthd natural_order k' (-1)) L_DCTSIZE2 tr1 in
-                  ac_first_loop f t Se (k' + 1) bs2 tr2
+                  ac_first_loop f t Se Al (k' + 1) bs2 tr2 ((nthd natural_order k' (-1), huff_extend v s * 2 ^ Al) :: st)
               end
         end
     end
-  else PDone 0 tr bs.
+  else PDone 0 tr bs st.
 
 (* ------------------------------------------------------------ decode_mcu_AC_refine, one block *)
 Inductive ires := IOk (k : Z) (blk : list Z) (bs : list bool) (tr : list (Z * Z)) | ISusp (tr : list (Z * Z)) | IFuel (tr : list (Z * Z)).
@@ -108,7 +108,7 @@ Fixpoint refine_outer (fuel : nat) (t : dtbl) (Se p1 m1 k : Z) (blk : list Z) (b
                         let tr1 := lg k' bound_natural_order tr' in
                         let pos := nthd natural_order k' (-1) in
                         let tr2 := lg pos L_DCTSIZE2 tr1 in
-                        let tr3 := lg nnz L_DCTSIZE2 tr2 in          (* newnz_pos[num_newnz++] *)
+                        let tr3 := lg nnz bound_newnz_pos tr2 in          (* newnz_pos[num_newnz++] *)
                         refine_outer f t Se p1 m1 (k' + 1) (updz pos sv blk') bs3 (nnz + 1) tr3
                   end
               end
@@ -174,7 +174,7 @@ Fixpoint lh_row (w : nat) (sampn ptrn : Z) (tr : list (Z * Z)) : list Z * Z * li
   match w with
   | O => ([], sampn, tr)
   | S w' =>
-      let tr1 := lg sampn bound_dc_cur_tbls (lg sampn bound_dc_cur_tbls tr) in   (* output_ptr_index[sampn], cur_tbls[sampn] *)
+      let tr1 := lg sampn bound_lh_arrays (lg sampn bound_lh_arrays tr) in   (* output_ptr_index[sampn], cur_tbls[sampn] *)
       let '(idx, sampn', tr') := lh_row w' (sampn + 1) ptrn tr1 in
       (ptrn :: idx, sampn', tr')
   end.
@@ -182,7 +182,7 @@ Fixpoint lh_comp (h : nat) (w : nat) (sampn ptrn : Z) (tr : list (Z * Z)) : list
   match h with
   | O => ([], sampn, ptrn, tr)
   | S h' =>
-      let tr1 := lg ptrn bound_dc_cur_tbls tr in                                  (* output_ptr_info[ptrn] *)
+      let tr1 := lg ptrn bound_lh_arrays tr in                                  (* output_ptr_info[ptrn] *)
       let '(idx1, sampn1, tr2) := lh_row w sampn ptrn tr1 in
       let '(idx2, sampn2, ptrn2, tr3) := lh_comp h' w sampn1 (ptrn + 1) tr2 in
       (idx1 ++ idx2, sampn2, ptrn2, tr3)
@@ -196,4 +196,4 @@ Fixpoint lh_setup (comps : list (Z * Z)) (sampn ptrn : Z) (tr : list (Z * Z)) : 
       (idx1 ++ idx2, n, tr2)
   end.
 (* decode_mcus, one MCU: "entropy->output_ptr[entropy->output_ptr_index[sampn]]++ = s": indices into output_ptr[] *)
-Definition lh_mcu_trace (idx : list Z) : list (Z * Z) := map (fun p => (p, bound_dc_cur_tbls)) idx.
+Definition lh_mcu_trace (idx : list Z) : list (Z * Z) := map (fun p => (p, bound_lh_arrays)) idx.
